@@ -25,6 +25,7 @@ func init() {
 		Assumptions: []string{"the requirement analysis (needs While / Set / TopLevelControl / GlobalReassign) is written for the shapes internal/gen produces", "internal/refeval implements the recursion rule by definition identity"},
 		Run:         run,
 		MinDistinct: 60,
+		Variants:    func(string) []driver.Variant { return []driver.Variant{{Name: "default", VLimitKB: 7 << 20}} },
 	})
 }
 
